@@ -29,14 +29,14 @@ func runC16(r *mon.Run) {
 		"c16:rcv-in-inputs", "c16:rcv-multiple", "c16:sum=inf", "c16:partial-inf", "c16:rep-nontrivial", "c16:same-object-twice"} {
 		r.Require(c)
 	}
-	r.Require("c16:len>=31:around-2^k")
+	r.Require("c16:len>=31:around-2^k", "c16:scalar-family", "c16:scalar-family:len>=200")
 	r.Each("c16/multi", r.N(1500, 50000), func(w *mon.W, i int) {
 		rng := w.Rng
 		l := i % 13
 		if i%17 == 0 {
 			l = 13 + rng.Intn(28)
 		}
-		if i%97 == 5 {
+		if i%97 == 5 || i%97 == 54 {
 			// long lists around powers of two (chunked / batched implementations split there)
 			l = []int{31, 32, 33, 63, 64, 65, 127, 128, 129, 130, 255, 256, 257, 300}[(i/97)%14]
 			w.Class("c16:len>=31:around-2^k")
@@ -62,6 +62,42 @@ func runC16(r *mon.Run) {
 				pv[j] = unknown[rng.Intn(len(unknown))]
 			} else {
 				pv[j] = known[rng.Intn(len(known))]
+			}
+		}
+		// list-wide scalar structure: weights a batch actually uses (all equal, small
+		// integers, a handful of distinct 4-bit digits, one non-zero digit, powers of two).
+		// Window/bucket methods see digit values that never occur and buckets that stay empty.
+		if (l >= 13 && rng.Bool()) || (l >= 2 && rng.Chance(1, 8)) {
+			fam := rng.Intn(6)
+			w.Class("c16:scalar-family")
+			if l >= 200 {
+				w.Class("c16:scalar-family:len>=200")
+			}
+			digits := []byte{0, byte(1 + rng.Intn(15)), byte(1 + rng.Intn(15))}
+			if rng.Bool() {
+				digits = append(digits, byte(1+rng.Intn(15)))
+			}
+			eq := rng.Below(n)
+			for j := 0; j < l; j++ {
+				switch fam {
+				case 0:
+					sv[j] = eq
+				case 1:
+					sv[j] = big.NewInt(int64(2 * (1 + rng.Intn(3)))) // 2, 4, 6
+				case 2:
+					sv[j] = big.NewInt(int64(1 + rng.Intn(15)))
+				case 3:
+					b := make([]byte, 32)
+					for k := range b {
+						b[k] = digits[rng.Intn(len(digits))]<<4 | digits[rng.Intn(len(digits))]
+					}
+					sv[j] = oracle.Mod(oracle.FromBytes(b), n)
+				case 4:
+					sv[j] = oracle.Mod(new(big.Int).Lsh(big.NewInt(int64(digits[1+rng.Intn(len(digits)-1)])), uint(4*rng.Intn(64))), n)
+				default:
+					sv[j] = new(big.Int).Lsh(big.NewInt(1), uint(rng.Intn(256)))
+					sv[j] = oracle.Mod(sv[j], n)
+				}
 			}
 		}
 		// structure: duplicates, inverse pairs, cancelling pairs
@@ -240,6 +276,7 @@ func runC16(r *mon.Run) {
 	})
 
 	// --- mismatched lengths are refused ------------------------------------------
+	r.Require("c16:mismatch:spare-capacity-holds-entries")
 	r.Each("c16/mismatch", r.N(60, 600), func(w *mon.W, i int) {
 		rng := w.Rng
 		ls, lp := rng.Intn(6), rng.Intn(6)
@@ -257,7 +294,24 @@ func runC16(r *mon.Run) {
 		for j := range pts {
 			pts[j] = pointFromOracle(known[rng.Intn(len(known))].P)
 		}
-		w.Case(true, []byte{byte(ls), byte(lp)})
+		if i%2 == 1 {
+			// the short argument is the front of a longer backing array (a reused or
+			// truncated list, all[:k]) whose spare capacity holds valid entries: the
+			// LENGTHS are what must agree, whatever lies behind them
+			mx := ls
+			if lp > mx {
+				mx = lp
+			}
+			mx += rng.Intn(3)
+			allS, allP := make([]*Scalar, mx), make([]*Point, mx)
+			for j := range allS {
+				allS[j] = scalarFromBig(rng.Below(n))
+				allP[j] = pointFromOracle(known[rng.Intn(len(known))].P)
+			}
+			scal, pts = allS[:ls], allP[:lp]
+			w.Class("c16:mismatch:spare-capacity-holds-entries")
+		}
+		w.Case(true, []byte{byte(ls), byte(lp), byte(i % 2)})
 		v := pointFromOracle(oracle.G())
 		before := snapPoint(v)
 		if p, _ := mon.Panics(func() { v.MultiScalarMult(scal, pts) }); !p {
